@@ -54,9 +54,11 @@ def run(ctx):
         if w is None:
             ctx.note(f"unquoter {name} has no oracle entry")
             continue
+        # `ignore` is exactly the set of escapes the accessor promises to keep (path_safe: %2F, %25; nothing elsewhere);
+        # `unsafe` re-escapes literal characters: only '+' outside queries, where it changes nothing
         ok = cfg["qs"] == w["qs"] and set(w.get("unsafe_has", "")) <= set(cfg["unsafe"]) and \
-            set(w.get("ignore_has", "")) <= set(cfg["ignore"]) and \
-            (name != "UNQUOTER" or (not cfg["unsafe"] and not cfg["ignore"]))
+            set(cfg["ignore"]) == set(w.get("ignore_has", "")) and \
+            set(cfg["unsafe"]) <= (set("+") if not cfg["qs"] and name != "UNQUOTER" else set())
         ctx.ob("T8", f"_quoters.{name}", f"configuration {cfg}", ok,
                f"unquoter configuration {cfg} does not match the accessor contract {w}", sample=str(cfg))
     from ..rules import flow
